@@ -38,7 +38,7 @@ def lib_flags():
     follows the code before and after a repair lands): rename check (C07-3), remove_link refuses a peering link
     (C07-4), _disconnect_from_services skips removed interfaces (C07-5), connect_interface checks the derived
     names (C07-6), add_component_sliver validates the new ids first (C09-6), connect_interface removes the port when
-    the link cannot be made (C09-7)."""
+    the link cannot be made (C09-7), peer refuses a self-peering and a taken link name (C07-7)."""
     if 'f' not in _FLAGS:
         import inspect
         from fim.user.model_element import ModelElement
@@ -54,6 +54,7 @@ def lib_flags():
             'connect_names': 'check_node_unique' in src(NetworkService.connect_interface),
             'comp_precheck': 'pairwise distinct' in src(ABCPropertyGraph.add_component_sliver),
             'connect_undo': 'remove_cp_and_links' in src(NetworkService.connect_interface),
+            'peer_checks': 'check_node_unique' in src(NetworkService.peer),
         }
     return _FLAGS['f']
 
@@ -219,8 +220,9 @@ class Histories(Stream):
         body = '[' + ';\n     '.join(steps) + ']'
         tb = '[' + '; '.join(cstr(x).replace('%N', '') for x in tbl) + ']'
         fl = lib_flags()
-        flags = 'mkFlags %s %s %s %s %s %s' % (cbool(fl['rename_check']), cbool(fl['link_refuse']), cbool(fl['skip_gone']),
-                                               cbool(fl['connect_names']), cbool(fl['comp_precheck']), cbool(fl['connect_undo']))
+        flags = 'mkFlags %s %s %s %s %s %s %s' % (cbool(fl['rename_check']), cbool(fl['link_refuse']), cbool(fl['skip_gone']),
+                                                  cbool(fl['connect_names']), cbool(fl['comp_precheck']), cbool(fl['connect_undo']),
+                                                  cbool(fl['peer_checks']))
         return '((%s, %s), %s,\n   fun s => %s)' % (cbool(case['flavour'] == 'sub'), flags, tb, body)
 
     # ---------------------------------------------------------------------------- independent oracle
@@ -322,7 +324,7 @@ class C07(Check):
         'Coq 8.16.1 kernel (coqc), vm_compute for the correspondence evaluation; no native_compute',
         'translator/gen_rules.py + translator/pyast.py (rules JSON, enum classes, component catalogue, NAME_REGEX, ViewOnlyDict -> Gen/Rules.v), fail-closed',
         'harness/c07.py, topo7_driver.py, topo7_gen.py, topo7_oracle.py + harness/common.py (history generation, fresh-handle resolution through the views, snapshot of storage.extract_graph, string table, cases.v writer)',
-        'six behaviour flags read off the source of the library under test (lib_flags: repairs C07-3..6, C09-6, C09-7 present or not)',
+        'seven behaviour flags read off the source of the library under test (lib_flags: repairs C07-3..7, C09-6, C09-7 present or not)',
         'modelled not verified: networkx Graph (one undirected edge per pair, remove_node drops incident edges), networkx_query search_nodes as a filter, nx.shortest_path as BFS distance, dict insertion/overwrite, uuid4 (replaced by a deterministic source in the harness process), re.fullmatch of the NAME_REGEX character classes on ASCII names',
     ]
     assumptions = [
@@ -390,6 +392,14 @@ WITNESSES = {
         [2, 'add_component', 'a', 'c1', 'c', 'SharedNIC', 'ConnectX-6', 's', ['i']],
         [3, 'add_ns', 's1', 'b', 'L2Bridge', ['i']],
         [4, 'remove_link', 'n1-c1-p1-link']]}),
+    'C07_peer_self_refuted': ('peer_checks', {'flavour': 'exp', 'ops': [
+        [1, 'add_ns', 's1', 'a', 'L2Bridge', []], [2, 'peer', 'a', 'a']]}),
+    'C07_peer_link_name_refuted': ('peer_checks', {'flavour': 'exp', 'ops': [
+        [1, 'add_node', 'n1', 'n', 'S1', 'VM'],
+        [2, 'add_component', 'n', 'c1', 'c', 'SmartNIC', 'ConnectX-6', 's', ['i', 'j']],
+        [3, 'add_ns', 's1', 'a', 'L2Bridge', []], [4, 'add_ns', 's2', 'b', 'L2Bridge', []],
+        [5, 'add_link', 's1-s2-link', 'l', 'Patch', ['i', 'j']],
+        [6, 'peer', 'a', 'b']]}),
     'C07_view_services_refuted': (None, {'flavour': 'sub', 'ops': [
         [1, 'add_node', 'n1', 'a', 'S1', 'VM'], [2, 'add_node', 'n2', 'b', 'S1', 'VM'],
         [3, 'node_add_ns', 'a', 'sv', 's1', 'OVS'], [4, 'node_add_ns', 'b', 'sv', 's2', 'OVS']]}),
